@@ -116,9 +116,14 @@ Definition row_of (o : Z * fagg) : row :=
   (fst o, (a_count (snd o), a_sum (snd o), oz (a_min (snd o)), oz (a_max (snd o)))).
 
 (* clause 1: a row carries exactly the aggregates of the raw non-NaN samples of its window *)
-Definition row_ok (res : Z) (d : list sample) (r : row) : bool :=
+(* the samples with their window computed once: (currentWindow(t), v) *)
+Definition keyed (res : Z) (d : list sample) : list (Z * Z) :=
+  map (fun s => (cw (fst s) res, snd s)) d.
+
+Definition row_ok (res : Z) (kd : list (Z * Z)) (r : row) : bool :=
   let '(w, (cv, sv, mnv, mxv)) := r in
-  let vs := map snd (filter (fun s => cw (fst s) res =? cw w res) d) in
+  let cww := cw w res in
+  let vs := map snd (filter (fun p => fst p =? cww) kd) in
   negb (Nat.eqb (length vs) 0)
   && (cv =? Z.of_nat (length vs)) && (sv =? sumZ vs)
   && option_eqb Z.eqb (Some mnv) (min_list vs) && option_eqb Z.eqb (Some mxv) (max_list vs).
@@ -165,7 +170,7 @@ Definition pred_ok (c : case) : bool :=
         let d := keep_nonnan data in
         match all_rows out with
         | Some rows =>
-            forallb (row_ok res d) rows
+            (let kd := keyed res d in forallb (row_ok res kd) rows)
             && strictly_inc (map (fun r => cw (fst r) res) rows)
             && totals_ok d rows
             && chunks_ordered None out
